@@ -1313,7 +1313,9 @@ pub fn c15(tier: &str, seed: u64) -> Vec<Case> {
         let mut has_empty_key = false;
         let mut split_names: Vec<String> = vec![];
         // (names equal to the discoverer's own up to letter case are other instances, reported like any other)
-        let mut name_pool = vec!["Self", "SELF", "sElf", "printer", "Printer", "PRINTER", "Living-Room", "living-room", "x", "X", "a1_b", "n0", "a23456789012345678901234567890123456789012345678901234567890123", "b2345678901234567890123456789012345678901234567890123456789012"];
+        let mut name_pool = vec!["Self", "SELF", "sElf", "printer", "Printer", "PRINTER", "Living-Room", "living-room", "x", "X", "a1_b", "n0", "a23456789012345678901234567890123456789012345678901234567890123", "b2345678901234567890123456789012345678901234567890123456789012",
+            // every class of first character the library's own rule for a label admits: underscore, digit
+            "_kitchen", "_x", "9lives", "0", "_sub", "a_1", "4k-tv"];
         for _peer in 0..peers {
             // distinct names within a history; names equal up to letter case are distinct instances
             let iname = name_pool.remove(r.below(name_pool.len() as u64) as usize).to_string();
@@ -1348,9 +1350,9 @@ pub fn c15(tier: &str, seed: u64) -> Vec<Case> {
             if r.chance(1, 10) { for k in 0..r.range(2, 5) { inst = inst.with_ip_address(IpAddr::V6(Ipv6Addr::from((0xFD00u128 << 112) + k as u128))); } }
             let nattr = if r.chance(1, 10) { r.range(8, 24) } else { r.below(4) };
             for na in 0..nattr {
-                let key = if r.chance(1, 30) { String::new() } else if na >= 4 { format!("key{}", na) } else { r.pick(&["path", "v", "é", "k k", "a;b", "Path", "PATH", "ID", "É", "Key9"]).to_string() };
+                let key = if r.chance(1, 30) { String::new() } else if na >= 4 { format!("key{}", na) } else { r.pick(&["path", "v", "é", "k k", "a;b", "Path", "PATH", "ID", "É", "Key9", " lead", "trail ", " both ", "\ttab", "nb\u{a0}"]).to_string() };
                 has_empty_key |= key.is_empty();
-                let val = match r.below(16) { 0..=4 => None, 5..=9 => Some(String::new()), 15 if !key.is_empty() => Some("v".repeat(254 - key.len() - r.below(2) as usize)), _ => Some(r.pick(&["1", "=x=", "ü", "a b"]).to_string()) };
+                let val = match r.below(16) { 0..=4 => None, 5..=9 => Some(String::new()), 15 if !key.is_empty() => Some("v".repeat(254 - key.len() - r.below(2) as usize)), _ => Some(r.pick(&["1", "=x=", "ü", "a b", "hello ", "  x", " ", "\t", "x\n", "\u{a0}y\u{a0}"]).to_string()) };
                 inst = inst.with_attribute(key, val);
             }
             let full = Name::new(&format!("{}.{}", inst.escaped_instance_name(), "_verif._tcp.local")).unwrap().into_owned();
